@@ -403,7 +403,7 @@ func ruleC15(c *Ctx) {
 					i0 := a0.Args[1]
 					want := sym.Bin(tokADD, i0, sym.Int(1), types.Typ[types.Int])
 					init, _ := li.Init.Int64()
-					ok = sym.Eq(a1.Args[1], want) && sym.Eq(i0, li.IndexVal) && init+li.Offset == 0 && li.Step == 1 &&
+					ok = sameInt(a1.Args[1], want) && sameInt(i0, li.IndexVal) && init+li.Offset == 0 && li.Step == 1 &&
 						strings.Contains(li.Bound.Key(), "len($param:stops)") && strings.Contains(a0.Args[0].Key(), "param:stops") && strings.Contains(a1.Args[0].Key(), "param:stops")
 					detail = fmt.Sprintf("MakeRange(%s, %s) bound %s", shortKey(a0), shortKey(a1), shortKey(li.Bound))
 					// bound must be len(stops)-1
